@@ -141,6 +141,8 @@ def schedule(I, system=False, user_chains=0, overwrite=False, composite=False, i
     num_samples, num_chains, burn_in, steps = I["num_samples"], I["num_chains"], I["burn_in"], I["steps"]
     st = _rec_state()
     o1, o2 = _observables()
+    comb = None  # reference arithmetic for o1 in terms of the values of its leaf
+    leaf = o1
     if composite == "library":
         # the library's own observables, the one that converts spins first: each still gets the result it would get alone
         from qucumber.observables import SigmaZ, NeighbourInteraction
@@ -148,12 +150,13 @@ def schedule(I, system=False, user_chains=0, overwrite=False, composite=False, i
         o1, o2 = NeighbourInteraction(), SigmaZ()
     elif composite == "alias":
         # a composite whose first term returns a view of the samples: evaluating it must not write into the chain state
-        o1 = type(o1).Occupation() + 1.5
+        leaf = type(o1).Occupation()
+        o1, comb = leaf + 1.5, (lambda x: x + 1.5)
     elif composite == "offset":
         # a composite whose mean dwarfs its spread (non-dyadic values): the reported variance must still be the variance
-        o1 = o1 * (1.0 / 3.0) + 1.0e6
+        o1, comb = o1 * (1.0 / 3.0) + 1.0e6, (lambda x: x * (1.0 / 3.0) + 1.0e6)
     elif composite:
-        o1 = 3 - 2 * o1
+        o1, comb = 3 - 2 * o1, (lambda x: 3 - 2 * x)
     kw = dict(num_chains=num_chains, burn_in=burn_in, steps=steps)
     init = None
     if user_chains:
@@ -196,7 +199,10 @@ def schedule(I, system=False, user_chains=0, overwrite=False, composite=False, i
     for (ob, res) in ((o1, res1), (o2, res2)):
         if res is None:
             continue
-        vals = np.concatenate([ob.apply(st, s.clone()).numpy() for s in st.states])  # (clones: the record of the chain states is never handed to library code)
+        if ob is o1 and comb is not None:
+            vals = comb(np.concatenate([leaf.apply(st, s.clone()).numpy() for s in st.states]))
+        else:
+            vals = np.concatenate([ob.apply(st, s.clone()).numpy() for s in st.states])  # (clones: the record of the chain states is never handed to library code)
         mean, var, err, n = _onepass(vals)
         if int(res["num_samples"]) != n or n != chains * draws or n < ns:
             return False, "%s: reported count %r, drawn %d, requested %d" % (ob.name, res["num_samples"], n, ns)
